@@ -3,7 +3,7 @@
 // an oracle computation on top of the bit-exact model of RNGSeedGenerator / ompl::RNG.
 //
 // first line:  rrtl [clock=<c>]      (the clock value is read by the model only)
-// then lines:  run dim=<d> lo=<b,..> hi=<b,..> boxes=<lo..,hi..;…|-> starts=<b,..;…> goals=<b,..;…> thr=<b> res=<b>
+// then lines:  run space=<rv|se2> dim=<d> lo=<b,..> hi=<b,..> boxes=<lo..,hi..;…|-> starts=<b,..;…> goals=<b,..;…> thr=<b> res=<b>
 //                  range=<b> bias=<b> is=<0|1> seed=<n> budget=<n> hist=<[sc]+> ptc=<evals|iter> trace=<0|1>
 //              (every <b> is the decimal u64 bit pattern of a double; range bits 0 = let RRT::setup() detect it)
 // prints, with trace=1, one line `q <index> <answer> <bits…>` per state-validity query, then one result line with one
@@ -27,6 +27,7 @@
 #include <ompl/base/ProblemDefinition.h>
 #include <ompl/base/PlannerTerminationCondition.h>
 #include <ompl/base/spaces/RealVectorStateSpace.h>
+#include <ompl/base/spaces/SE2StateSpace.h>
 #include <ompl/base/goals/GoalState.h>
 #include <ompl/base/goals/GoalStates.h>
 #include <ompl/base/terminationconditions/IterationTerminationCondition.h>
@@ -85,25 +86,26 @@ public:
     }
     bool isValid(const ob::State *s) const override
     {
-        const unsigned dim = si_->getStateDimension();
-        const double *v = s->as<ob::RealVectorStateSpace::StateType>()->values;
+        std::vector<double> v;
+        si_->getStateSpace()->copyToReals(v, s);
+        const unsigned n = (unsigned)v.size();
         bool ok = si_->satisfiesBounds(s);
         for (const Box &b : boxes_)
         {
             bool in = true;
-            for (unsigned i = 0; i < dim; ++i)
+            for (unsigned i = 0; i < b.lo.size(); ++i)
                 if (v[i] < b.lo[i] || v[i] > b.hi[i])
                     in = false;
             if (in)
                 ok = false;
         }
-        for (unsigned i = 0; i < dim; ++i)
+        for (unsigned i = 0; i < n; ++i)
             c_->q.dbl(v[i]);
         c_->q.byte(ok ? 1 : 0);
         if (c_->trace)
         {
             std::cout << "q " << c_->evals << " " << (ok ? 1 : 0);
-            for (unsigned i = 0; i < dim; ++i)
+            for (unsigned i = 0; i < n; ++i)
                 std::cout << " " << vp::bits(v[i]);
             std::cout << "\n";
         }
@@ -131,6 +133,27 @@ public:
         if (k)
             for (unsigned i = 0; i < getDimension(); ++i)
                 s->as<StateType>()->values[i] = (k == 1 ? 0.137 : 0.861) - 0.01 * i;
+        return s;
+    }
+};
+
+class FillSE2 : public ob::SE2StateSpace
+{
+public:
+    ob::State *allocState() const override
+    {
+        static const int k = [] {
+            const char *e = getenv("C20_STATE_FILL");
+            return e ? atoi(e) : 0;
+        }();
+        ob::State *s = ob::SE2StateSpace::allocState();
+        if (k)
+        {
+            const auto &b = getBounds();
+            const double f = k == 1 ? 0.137 : 0.861;
+            s->as<StateType>()->setXY(b.low[0] + f * (b.high[0] - b.low[0]), b.low[1] + f * (b.high[1] - b.low[1]));
+            s->as<StateType>()->setYaw(k == 1 ? 0.5 : -2.1);
+        }
         return s;
     }
 };
@@ -246,9 +269,9 @@ int main()
             continue;
         bool ok;
         auto a = kv(t, ok);
-        static const char *keys[] = {"dim", "lo", "hi", "boxes", "starts", "goals", "thr", "res", "range", "bias",
+        static const char *keys[] = {"space", "dim", "lo", "hi", "boxes", "starts", "goals", "thr", "res", "range", "bias",
                                      "is", "seed", "budget", "hist", "ptc", "trace"};
-        if (t[0] != "run" || !ok || a.size() != 16)
+        if (t[0] != "run" || !ok || a.size() != 17)
             ok = false;
         for (const char *k : keys)
             if (!a.count(k))
@@ -266,9 +289,11 @@ int main()
             res = vp::parseBits(a["res"]);
             range = vp::parseBits(a["range"]);
             bias = vp::parseBits(a["bias"]);
-            ok = dim && *dim >= 1 && *dim <= 8 && seed && budget && *budget <= 1000000 && thr && res && range && bias &&
+            const bool se2 = a["space"] == "se2";
+            const size_t n = dim ? *dim + (se2 ? 1 : 0) : 0;
+            ok = (se2 || a["space"] == "rv") && dim && *dim >= 1 && *dim <= 8 && (!se2 || *dim == 2) && seed && budget && *budget <= 1000000 && thr && res && range && bias &&
                  parseVec(a["lo"], *dim, lo) && parseVec(a["hi"], *dim, hi) && parseVecs(a["boxes"], 2 * *dim, boxes) &&
-                 parseVecs(a["starts"], *dim, starts) && parseVecs(a["goals"], *dim, goals) && !starts.empty() &&
+                 parseVecs(a["starts"], n, starts) && parseVecs(a["goals"], n, goals) && !starts.empty() &&
                  !goals.empty() && (a["is"] == "0" || a["is"] == "1") && (a["ptc"] == "evals" || a["ptc"] == "iter") &&
                  (a["trace"] == "0" || a["trace"] == "1") && !a["hist"].empty() && a["hist"][0] == 's' &&
                  a["hist"].find_first_not_of("sc") == std::string::npos && !seeded;
@@ -289,14 +314,27 @@ int main()
         Counters c;
         c.trace = a["trace"] == "1";
         const unsigned d = (unsigned)*dim;
+        const bool se2 = a["space"] == "se2";
+        const unsigned n = d + (se2 ? 1 : 0);
         std::string out;
         try
         {
-            auto space = std::make_shared<FillRV>(d);
             ob::RealVectorBounds bounds(d);
             bounds.low = lo;
             bounds.high = hi;
-            space->setBounds(bounds);
+            ob::StateSpacePtr space;
+            if (se2)
+            {
+                auto sp = std::make_shared<FillSE2>();
+                sp->setBounds(bounds);
+                space = sp;
+            }
+            else
+            {
+                auto sp = std::make_shared<FillRV>(d);
+                sp->setBounds(bounds);
+                space = sp;
+            }
             auto si = std::make_shared<ob::SpaceInformation>(space);
             std::vector<Box> bx;
             for (auto &b : boxes)
@@ -307,7 +345,7 @@ int main()
             auto pdef = std::make_shared<ob::ProblemDefinition>(si);
             auto mk = [&](const std::vector<double> &v) {
                 ob::ScopedState<> s(space);
-                for (unsigned i = 0; i < d; ++i)
+                for (unsigned i = 0; i < n; ++i)
                     s[i] = v[i];
                 return s;
             };
@@ -373,9 +411,13 @@ int main()
                 {
                     Fnv h;
                     auto &states = static_cast<og::PathGeometric &>(*sp).getStates();
+                    std::vector<double> r;
                     for (ob::State *s : states)
-                        for (unsigned i = 0; i < d; ++i)
-                            h.dbl(s->as<ob::RealVectorStateSpace::StateType>()->values[i]);
+                    {
+                        space->copyToReals(r, s);
+                        for (double x : r)
+                            h.dbl(x);
+                    }
                     path = std::to_string(states.size()) + ":" + h.hex();
                     dif = vp::bits(pdef->getSolutionDifference());
                 }
@@ -386,8 +428,10 @@ int main()
                 Fnv th;
                 for (auto *m : ms)
                 {
-                    for (unsigned i = 0; i < d; ++i)
-                        th.dbl(m->state->as<ob::RealVectorStateSpace::StateType>()->values[i]);
+                    std::vector<double> r;
+                    space->copyToReals(r, m->state);
+                    for (double x : r)
+                        th.dbl(x);
                     th.u64(m->parent ? index.at(m->parent) + 1 : 0);
                 }
                 std::ostringstream os;
